@@ -448,7 +448,9 @@ func smallGeoms(n int) []geom {
 		return []geom{geomV4("192.168.0.254", "192.168.1.0"), geomV4("255.255.255.253", "255.255.255.255")}
 	case 4:
 		return []geom{geomV4("10.1.2.3", "10.1.2.6"), geomV4("0.0.0.0", "0.0.0.3"), geomV6("2001:db8:0:fffc::/62", 64), geomV6("ff00::/2", 4),
-			geomV6("2001:db8:1:2:ff00::/70", 72), geomV6("::ffff:ffff:ff00/126", 128), geomV6("2001:db8:ffff:ffc0::/58", 60)}
+			geomV6("2001:db8:1:2:ff00::/70", 72), geomV6("::ffff:ffff:ff00/126", 128), geomV6("2001:db8:ffff:ffc0::/58", 60),
+			// allocation lengths below 64 whose block indices reach 2^(64-length): the shift in AddPrefixes is near its limit
+			geomV6("2001:db8:0:fff8::/61", 63)}
 	}
 	return nil
 }
@@ -460,6 +462,7 @@ func bigGeoms() []geom {
 		geomV4("255.255.255.0", "255.255.255.255"), geomV4("10.9.8.0", "10.9.11.231"),
 		geomV6("2001:db8::/58", 64), geomV6("2001:db8:ffff:ff80::/57", 64), geomV6("2001:db8::/56", 64),
 		geomV6("fd00:ffff:ffff:ffff:ffff:ffff:ffff:ff00/120", 128), geomV6("2001:db8:0:10::/60", 68), geomV6("2001:db8:0:0:ff00::/72", 80),
+		geomV6("2001:db8:0:40::/58", 62), geomV6("2001:db8:a000::/52", 60), geomV6("2001:db8:0:ff00::/57", 63),
 	}
 }
 
